@@ -607,8 +607,11 @@ def run(prog, rep, tier):
         if r_["cmp"] in ("Lt", "Le") and bound_ < need_:
             rep.violation(R913, "%s|%s|bound" % (r_["fn"], r_["counter"]), "%s: the field enumeration loop (line %s) stops after %s rounds; journald writes entries with up to 1024 fields, the fields beyond the bound are dropped from the rendering without a message"
                           % (r_["fn"].split("::")[-1], r_["line"], bound_))
-    if n913 < 3:
-        raise CheckerError("R9.13: only %d counter-bounded field enumeration loops found" % n913)
+    nenum913 = sum(1 for jb_ in prog.bodies() if jb_.path.startswith(JR + "::") and "_tests" not in jb_.path and "{closure" not in jb_.path
+                   and any(c.d.endswith("call_sd_journal_enumerate_available_data") and c.d != jb_.path and any(c.bb in jb_.loop_blocks(h_) or c.bb == h_ for (_s, h_) in jb_.back_edges()) for c in jb_.live_calls()))
+    rep.examined(R913, "journalreader|enumeration-loops", sample={"functions_with_a_field_enumeration_loop": nenum913, "of_which_counter_bounded": n913})
+    if nenum913 < 3:
+        raise CheckerError("R9.13: only %d field enumeration loops found" % nenum913)
 
     # ------------------------------------------------------------ R9.14 error kinds the reader tests for are kinds its errno mapping can produce
     # libsystemd failures reach the renderers as io::Errors whose kind comes from errno_to_errorkind().
